@@ -307,7 +307,20 @@ impl Model for BytesModel {
     type Action = Act;
 
     fn init_states(&self) -> Vec<St> {
-        (0..self.cases.len()).map(|i| self.init_state(i)).collect()
+        (0..self.cases.len())
+            .map(|i| match guarded(|| self.init_state(i)) {
+                Ok(st) => st,
+                Err(msg) => {
+                    // a panic while creating / inspecting the fresh iterator
+                    let c = &self.cases[i];
+                    let mut st = St { case: i as u32, it: make(c.kind, c.nd, c.hay), f: 0, b: 0, bad: None, hist: vec![] };
+                    let w = format!("inspecting the fresh iterator panicked: {}", msg);
+                    self.record(&st, &w);
+                    st.bad = Some(Arc::new(w));
+                    st
+                }
+            })
+            .collect()
     }
 
     fn actions(&self, st: &St, actions: &mut Vec<Act>) {
@@ -370,6 +383,25 @@ fn build_cases(kinds: &[&'static str], l1: usize, l23: usize, long: bool, aligns
                     cases.push(Case { kind, nd, hay, align: a, positions: positions(k, nd, hay) });
                 }
             });
+        }
+        // repeated needle bytes (Two / Three): (a,a), (a,b,b), (a,a,b), (a,b,a), (a,a,a)
+        if k >= 2 {
+            let dups: &[[u8; 3]] = if k == 2 { &[[0x61, 0x61, 0x61]] } else { &[[0x61, 0x62, 0x62], [0x61, 0x61, 0x62], [0x61, 0x62, 0x61], [0x61, 0x61, 0x61]] };
+            for &dn in dups {
+                let lmax = lmax.min(7);
+                for len in 0..=lmax {
+                    // strings over {other, a, b}
+                    let total = enumr::pow(3, len as u32);
+                    let mut data = vec![0u8; len];
+                    enumr::for_strings(3, len, 0, total, |_, roles| {
+                        for (d, r) in data.iter_mut().zip(roles) {
+                            *d = [b'.', 0x61, 0x62][*r as usize];
+                        }
+                        let hay = crate::leak_placed(&data, 1, b'.');
+                        cases.push(Case { kind, nd: dn, hay, align: 1, positions: positions(k, dn, hay) });
+                    });
+                }
+            }
         }
         if long {
             // long haystacks: matches inside one vector, at vector and loop
